@@ -3,11 +3,11 @@ package main
 import (
 	"context"
 	"fmt"
-	"os"
-	"path/filepath"
 	"go/constant"
 	"go/token"
 	"go/types"
+	"os"
+	"path/filepath"
 	"sort"
 	"strings"
 
@@ -57,33 +57,33 @@ type closureInfo struct {
 
 // Verifier verifies one function against its contract.
 type Verifier struct {
-	rangeEntryHas map[ssa.Value]string // per map range: presence array of the map when the range started
-	prog        *Program
-	fn          *ssa.Function
-	key         string
-	contract    *Contract
-	env         *Env
-	obls        []*Obligation
-	entry       *State
-	loops       map[*ssa.BasicBlock]*loopInfo
-	dbg         map[ssa.Value][]string
-	addrNames   map[string]ssa.Value // source var name -> Alloc cell (captured / address-taken locals)
-	siteOrd     map[ssa.Instruction]int
-	paths       int
-	maxPaths    int
-	unsupported string
-	notes       []string // havoc-all calls, assumptions
-	closures    map[string]*closureInfo
-	qn          int
-	params      map[string]Value
-	freeDeref   map[string]Value // free variable name -> pointer value (cells)
-	invOld      map[*ECall]Value // closure invariants: old(...) occurrence -> unknown constant
-	checkedNil  map[string]bool
-	assumeCount int
-	trustedUsed map[string]bool
-	pruneN      int
+	rangeEntryHas  map[ssa.Value]string // per map range: presence array of the map when the range started
+	prog           *Program
+	fn             *ssa.Function
+	key            string
+	contract       *Contract
+	env            *Env
+	obls           []*Obligation
+	entry          *State
+	loops          map[*ssa.BasicBlock]*loopInfo
+	dbg            map[ssa.Value][]string
+	addrNames      map[string]ssa.Value // source var name -> Alloc cell (captured / address-taken locals)
+	siteOrd        map[ssa.Instruction]int
+	paths          int
+	maxPaths       int
+	unsupported    string
+	notes          []string // havoc-all calls, assumptions
+	closures       map[string]*closureInfo
+	qn             int
+	params         map[string]Value
+	freeDeref      map[string]Value // free variable name -> pointer value (cells)
+	invOld         map[*ECall]Value // closure invariants: old(...) occurrence -> unknown constant
+	checkedNil     map[string]bool
+	assumeCount    int
+	trustedUsed    map[string]bool
+	pruneN         int
 	partialSkipped int
-	measure0    string // termination measure at entry (functions with a decreases clause)
+	measure0       string // termination measure at entry (functions with a decreases clause)
 }
 
 func (v *Verifier) unsupportedf(format string, args ...interface{}) {
@@ -719,7 +719,9 @@ func (v *Verifier) autoInvariants(li *loopInfo) []*Clause {
 		idx := i
 		lit := bigLit(init.Value.ExactString())
 		lo := &Clause{Label: fmt.Sprintf("auto%d.lo", i), Text: fmt.Sprintf("phi%d >= %s (inferred counter bound)", i, init.Value.ExactString()),
-			Raw: func(phis []Value, operand func(interface{}) string) string { return "(>= " + phis[idx].T + " " + lit + ")" }}
+			Raw: func(phis []Value, operand func(interface{}) string) string {
+				return "(>= " + phis[idx].T + " " + lit + ")"
+			}}
 		// guard of the form (phi + c) < X in the head block, X defined outside the loop; the lower
 		// bound alone is not inductive (wrap-around), so both bounds are added together or not at all
 		if step != nil && step.Block() == li.head {
